@@ -91,3 +91,71 @@ Theorem C06_ends : forall c fuel st fs tl,
   (length fs < fuel)%nat -> exists pre, loop fuel c st fs tl = pre ++ [Closed].
 Proof. exact loop_ends. Qed.
 Print Assumptions C06_ends.
+
+(* ---------- the whole connection against the executable oracle ---------- *)
+Require Import Wire.RobustFacts Wire.Case Spec.Oracles Spec.OracleFacts.
+
+(* The reply discipline as a statement about the WHOLE command loop, in the terms of
+   the executable oracle [turn_step]/[turn_fold]/[early_end_ok] of Spec/Oracles.v —
+   the very functions that bin/check evaluates on the logs observed on the
+   implementation.  For every configuration whose handlers do not use COPY (COPY is
+   C13's), every session state whose cached statements came from such a
+   configuration, every list of client frames (well-formed, malformed, oversized,
+   truncated) and every oracle state matching the session state: the log of the loop
+   splits at its Consume markers into one turn per frame handled, every turn passes
+   the oracle's rule for its frame (16 rules: designated reply or one ErrorResponse,
+   ReadyForQuery exactly for Sync / simple Query / non-extended errors, silence while
+   skipping to Sync, ...), the oracle's skip flag tracks the session's, and the
+   connection ends before the frames are used up only at a Terminate or at a message
+   whose body is malformed. *)
+Theorem C06_loop_satisfies_oracle : forall c tl, cfg_nocopy c -> text_safe c -> forall fuel st fs s pre,
+  st_nocopy st -> tmatch s st -> no_consume pre = true -> (List.length fs < fuel)%nat ->
+  exists ts, split_consume (rev pre) (loop fuel c st fs tl) = (pre ++ endmark fs) :: ts /\
+    (match fs with [] => ts = [] | _ :: _ => ts <> [] end) /\
+    t_ok (turn_fold s fs ts) = true /\ t_copy (turn_fold s fs ts) = false /\ early_end_ok fs ts = true.
+Proof. exact loop_turns. Qed.
+Print Assumptions C06_loop_satisfies_oracle.
+
+(* ... and for a whole connection as the harness scripts it (no password
+   authentication, first packet not an SSLRequest, any startup packet, any middleware
+   outcomes, any byte stream): the model's log passes [oracle_turns] *)
+Theorem C06_model_satisfies_oracle : forall sc,
+  sc_auth sc = None -> case_nocopy sc = true ->
+  (forall v after rest, start (cfg_of_case sc) (sc_raw sc) = Some (v, after, rest) -> v <> version_ssl) ->
+  oracle_turns sc (run_case sc) = true.
+Proof. exact oracle_turns_model. Qed.
+Print Assumptions C06_model_satisfies_oracle.
+
+(* non-vacuity: a case with a failing Parse, skipped Bind/Execute, Sync, a Query with
+   rows, an unknown message type and an oversized message meets the hypotheses *)
+From Coq Require Import String.
+Local Open Scope string_scope.
+Local Open Scope list_scope.
+Definition ex_stmt : stmt :=
+  {| s_id := 1; s_cols := [ {| c_name := bs "a"; c_table := 0; c_attrno := 0; c_oid := 25; c_width := 0 |} ];
+     s_poids := []; s_prog := [HRow [VText (bs "x")]; HComplete (bs "SELECT 1")]; s_stop := false; s_ret := RetNil |}.
+Definition ex_case : scase :=
+  {| sc_limit := 16; sc_auth := None; sc_params := []; sc_version := []; sc_tls := false; sc_mws := [true];
+     sc_term := Some true;
+     sc_parse := [(bs "good", POk [ex_stmt]); (bs "bad", PErr (ECode (bs "42601") (EBase (bs "syntax"))))];
+     sc_raw := (let body := be32 196608 ++ cstr (bs "user") ++ cstr (bs "a") ++ [x00] in be32 (4 + lenZ body) ++ body) ++
+               client_msg x50 (cstr (bs "s") ++ cstr (bs "bad") ++ be16 0) ++
+               client_msg x42 (cstr [] ++ cstr (bs "s") ++ be16 0 ++ be16 0 ++ be16 0) ++
+               client_msg x45 (cstr [] ++ be32 0) ++
+               client_msg x53 [] ++
+               client_msg x50 (cstr (bs "s") ++ cstr (bs "good") ++ be16 0) ++
+               client_msg x42 (cstr [] ++ cstr (bs "s") ++ be16 0 ++ be16 0 ++ be16 0) ++
+               client_msg x45 (cstr [] ++ be32 0) ++
+               client_msg x53 [] ++
+               client_msg x51 (cstr (bs "good")) ++
+               client_msg x7a [] ++
+               client_msg x51 (cstr (bs "a query text beyond the limit")) ++
+               client_msg x58 [] ++ client_msg x51 (cstr (bs "good"));
+     sc_tlsin := None |}.
+Example C06_ex_hypotheses :
+  sc_auth ex_case = None /\ case_nocopy ex_case = true /\
+  (exists v after rest, start (cfg_of_case ex_case) (sc_raw ex_case) = Some (v, after, rest) /\ v = 196608) /\
+  List.length (client_frames ex_case) = 13%nat /\
+  List.length (filter (fun e => match e with Consume => true | _ => false end) (run_case ex_case)) = 12%nat /\
+  oracle_turns ex_case (run_case ex_case) = true.
+Proof. vm_compute. repeat split. do 3 eexists. split; reflexivity. Qed.
